@@ -179,6 +179,7 @@ pub struct Out {
     pub cases: std::io::BufWriter<std::fs::File>,
     pub imp: std::io::BufWriter<std::fs::File>,
     pub oracle: std::io::BufWriter<std::fs::File>,
+    pub ocases: std::io::BufWriter<std::fs::File>,
     pub dir: String,
     pub fails: u64,
 }
@@ -191,12 +192,17 @@ impl Out {
             cases: f("cases.txt"),
             imp: f("impl.txt"),
             oracle: f("oracle.txt"),
+            ocases: f("oracle_cases.txt"),
             dir: dir.to_string(),
             fails: 0,
         }
     }
     pub fn case(&mut self, line: &str) {
         writeln!(self.cases, "{}", line).unwrap();
+    }
+    /// a case that only the oracle sees (not part of the model stream); kept so that it can be replayed
+    pub fn oracle_case(&mut self, line: &str) {
+        writeln!(self.ocases, "{}", line).unwrap();
     }
     pub fn imp(&mut self, line: &str) {
         writeln!(self.imp, "{}", line).unwrap();
@@ -210,6 +216,7 @@ impl Out {
         self.cases.flush().unwrap();
         self.imp.flush().unwrap();
         self.oracle.flush().unwrap();
+        self.ocases.flush().unwrap();
         stats.write(&format!("{}/stats.json", self.dir));
     }
 }
